@@ -5,7 +5,7 @@
    no loader, no wake-up channel, no lock.  A recorded call takes effect at some instant between its invocation
    and its response (silent Lin step); the history is accepted iff such instants exist for all calls (TLC searches
    them; acceptance = the high-water mark of consumed lines reaches the end, register 1).
-   Lines: reset (C, B, kind), inv/res (thr, op, v, r), quiesce (v = Count()), stuck (v = Count() while Take() calls are still blocked).                                   *)
+   Lines: reset (C, B, kind), inv/res (thr, op, v, r), quiesce (v = Count()), blockedwait (advisory: Take() calls still blocked, the harness goes on calling Poll), stuck (v = Count() after those repeated calls: must be 0).                                   *)
 EXTENDS Json, TLC, Sequences, Integers, FiniteSets, IOUtils
 Trace == ndJsonDeserialize(IOEnv.VERIF_TRACE)
 VARIABLES l, ch, pool, C, B, pend
@@ -28,7 +28,8 @@ Consume ==
         /\ UNCHANGED <<ch, pool, C, B>>
      \/ /\ e.ev = "quiesce" /\ ch = <<>> /\ pool = <<>> /\ e.v = 0                          \* nothing stranded, Count() = 0
         /\ UNCHANGED <<ch, pool, C, B, pend>>
-     \/ /\ e.ev = "stuck" /\ e.v = 0                                                    \* consumers still blocked in Take() after the producer stopped: only if nothing is left
+     \/ /\ e.ev = "blockedwait" /\ UNCHANGED <<ch, pool, C, B, pend>>                    \* advisory marker: Take() calls still blocked, further calls follow
+     \/ /\ e.ev = "stuck" /\ e.v = 0                                                    \* repeated calls after the producer stopped must have retrieved everything
         /\ UNCHANGED <<ch, pool, C, B, pend>>
      \/ /\ e.ev = "count" /\ e.v <= C + B /\ e.v >= 0                                     \* never more than C + B items
         /\ UNCHANGED <<ch, pool, C, B, pend>>
